@@ -41,6 +41,15 @@ func (s *source) StagingTX() channel.Transaction { return cloneTx(s.snap.Staging
 func (s *source) CurrentTX() channel.Transaction { return cloneTx(s.snap.Current) }
 func (s *source) Phase() channel.Phase           { return s.snap.Phase }
 
+// RestoreWithPhase rebuilds a state machine from the given one as a restarted client does
+// (channel.RestoreStateMachine), but reporting the given phase: the persisted phase may be older
+// than the transactions, and the client's channel sync revises it to Acting.
+func RestoreWithPhase(m *channel.StateMachine, params *channel.Params, acc map[wallet.BackendID]wallet.Account, ph channel.Phase) (*channel.StateMachine, error) {
+	sn := Snap(m)
+	sn.Phase = ph
+	return channel.RestoreStateMachine(acc, &source{idx: m.Idx(), params: params, snap: sn})
+}
+
 // Fork returns an independent execution in the same state. Only plain machines can be forked:
 // the copy is rebuilt with channel.RestoreStateMachine from a harness-made snapshot (states are
 // immutable in the explorer, signature vectors are copied).
